@@ -88,7 +88,7 @@ func TestV2Examples(t *testing.T) {
 		{"AV:L/AC:H/Au:N/C:C/I:C/A:C", 62, 62, 62},
 		{"AV:L/AC:H/Au:N/C:C/I:C/A:C/E:POC/RL:OF/RC:C", 62, 49, 49},
 		{"AV:L/AC:H/Au:N/C:C/I:C/A:C/CDP:H/TD:H/CR:M/IR:M/AR:M", 62, 62, 81},
-		{"AV:A/AC:L/Au:N/C:C/I:C/A:C/CDP:H/TD:H/CR:L/IR:ND/AR:ND", 83, 83, 90},                 // issue-33: exact half 9.05, {9.0, 9.1}
+		{"AV:A/AC:L/Au:N/C:C/I:C/A:C/CDP:H/TD:H/CR:L/IR:ND/AR:ND", 83, 83, 90},                   // issue-33: exact half 9.05, {9.0, 9.1}
 		{"AV:A/AC:L/Au:N/C:C/I:C/A:C/E:ND/RL:ND/RC:ND/CDP:H/TD:ND/CR:L/IR:ND/AR:ND", 83, 83, 90}, // issue-33b
 		{"AV:L/AC:M/Au:S/C:N/I:N/A:P/CDP:N/TD:ND/CR:M/IR:ND/AR:ND", 15, 15, 15},
 		{"AV:A/AC:M/Au:S/C:C/I:C/A:C/CDP:N/TD:N/CR:M/IR:ND/AR:L", 74, 74, 0},
